@@ -84,9 +84,17 @@ class OrderRun:
         self.counts = {}
 
 
-def run_order(gfa, outdir, order, by_chrom, with_seq, hashseed=None, casedir=None, prop=None, tag="boot"):
+def run_order(gfa, outdir, order, by_chrom, with_seq, hashseed=None, casedir=None, prop=None, tag="boot", squat=()):
     # order_gfa creates a missing output directory itself (also nested): leave that to it every other time
-    if stable_hash_int(outdir) % 2 == 0:
+    if squat:
+        # something that is not a file sits where a component that will be skipped would have been
+        # written (nothing is ever supposed to be written there)
+        os.makedirs(outdir, exist_ok=True)
+        base = os.path.basename(gfa)
+        for c in squat:
+            os.makedirs(os.path.join(outdir, base.split(".")[0] + "-" + c + ".gfa"), exist_ok=True)
+            os.makedirs(os.path.join(outdir, base[:-4] + "-" + c + ".csv"), exist_ok=True)
+    if squat or stable_hash_int(outdir) % 2 == 0:
         os.makedirs(outdir, exist_ok=True)
         if stable_hash_int(outdir) % 4 == 0 and not by_chrom:
             # a re-used output directory: the combined files of an earlier run are already there
@@ -113,7 +121,8 @@ def run_order(gfa, outdir, order, by_chrom, with_seq, hashseed=None, casedir=Non
         r.counts = res.get("counts", {})
         r.tb = res.get("tb", "")
     for p in sorted(glob.glob(os.path.join(outdir, "*"))):
-        r.files[os.path.basename(p)] = p
+        if os.path.isfile(p):
+            r.files[os.path.basename(p)] = p
     return r
 
 
